@@ -7,7 +7,8 @@ from common import BASE_ASSUMPTIONS  # noqa: E402
 RULE = ("HalfLife.tla: the doubling / bisection search over every above-1/2 pattern of every length within the bound - "
         "NoUnderflow, BracketInv, InRange, ResultLaw and the liveness property Terminates (weak fairness, no state "
         "constraint); Composite.tla decides the pattern of a concrete integer series exactly in integers, so the machine is "
-        "also started from every series over the alphabet and its result replayed into half_life under a watchdog; "
+        "also started from every series over the alphabet - and from a ramp of length 10..13 under every null mask - and its "
+        "result replayed into half_life under a watchdog; "
         "winsorize (3 methods) as clipping to exact rational / surd bounds and Spearman as Pearson of average ranks are "
         "enumerated and replayed, incl. order preservation and invariance under strictly increasing maps on the real code")
 
@@ -17,8 +18,12 @@ def run(ctx):
     ctx.tlc("half-life-patterns", "HalfLife", "HalfLife.cfg" if q else "HalfLife_thorough.cfg", workers=8, timeout=3000, emit=False)
     r = ctx.tlc("composite", "MCComposite", "MCComposite_quick.cfg" if q else "MCComposite_thorough.cfg", workers=12,
                 timeout=6000)
+    # a persistent ramp of length 10..11 (thorough ..13) under EVERY null mask: interior gaps make lags beyond the
+    # number of valid observations meaningful
+    rr = ctx.tlc("ramp", "MCComposite", "MCComposite_ramp.cfg" if ctx.quick else "MCComposite_ramp_thorough.cfg", workers=12, timeout=3000)
     binp = ctx.build("tvh-agg")
     ctx.harness("composite", binp, ["replay-composite", "--in", r["emitted"]])
+    ctx.harness("ramp", binp, ["replay-composite", "--in", rr["emitted"]])
     ctx.assumptions += BASE_ASSUMPTIONS + [
         "the exact half-life is required of monotone above-1/2 patterns only; a series with a lag whose autocorrelation is "
         "exactly 1/2 is compared on range and termination only (the float comparison may fall either way)",
